@@ -448,7 +448,6 @@ func cmdReplay(args []string) int {
 	return 0
 }
 
-
 func findHarness(specPath, name string) *harnessSpec {
 	var spec propSpec
 	b, err := os.ReadFile(specPath)
